@@ -348,6 +348,45 @@ def facets_check(m, mp, kind, curved, bad, out):
         if side == 0:
             bnd = f2t[1, find] == -1
             total += contrib[bnd].sum()
+    # the facet bases built on the mapping: normals and dx as observed by forms
+    try:
+        from skfem import FacetBasis, InteriorFacetBasis
+        import warnings
+        bases = [('boundary', lambda: FacetBasis(m, m.elem(), mapping=mp, quadrature=(Xf, Wf)))]
+        if (f2t[1] != -1).any():
+            bases.append(('interior-side0', lambda: InteriorFacetBasis(m, m.elem(), mapping=mp, quadrature=(Xf, Wf), side=0)))
+            bases.append(('interior-side1', lambda: InteriorFacetBasis(m, m.elem(), mapping=mp, quadrature=(Xf, Wf), side=1)))
+        for bl, mkb in bases:
+            with warnings.catch_warnings():
+                warnings.simplefilter('ignore')
+                fb = mkb()
+            find = np.asarray(fb.find)
+            nb = np.asarray(fb.normals)
+            xg = g[:, find]
+            if np.abs(np.sqrt((nb ** 2).sum(axis=0)) - 1).max() > 1e-12:
+                bad('basis-normals-unit', f"{bl}: FacetBasis.normals are not unit vectors")
+            for d in range(dim - 1):
+                acc = 0
+                for k in (-3, -2, -1, 1, 2, 3):
+                    Xs = Xf.copy()
+                    Xs[d] += k * H
+                    acc = acc + FD[k + 3] * mp.G(Xs, find=find)
+                dotp = (acc * nb).sum(axis=0)
+                if np.abs(dotp).max() > 1e-9 * scale:
+                    bad('basis-normals-orthogonal', f"{bl}: FacetBasis.normals are not orthogonal to the facet "
+                        f"(max |n.t| = {np.abs(dotp).max():.3e})")
+                    break
+            if not curved:
+                c0 = f2t[0, find]
+                outw = ((xg - centroid[:, c0][:, :, None]) * nb).sum(axis=0)
+                if (outw <= 0).any():
+                    bad('basis-normals-outward', f"{bl}: FacetBasis.normals do not point out of the first neighbour")
+            dxw = np.abs(dg[find]) * Wf
+            if np.abs(np.asarray(fb.dx) - dxw).max() > 1e-12 * (1 + np.abs(dxw).max()):
+                bad('basis-dx', f"{bl}: FacetBasis.dx differs from detDG * weights")
+            out.ev()
+    except NotImplementedError:
+        pass
     if np.abs(flux - dim * cellvol).max() > 1e-10 * (1 + np.abs(cellvol).max()) * scale:
         c = int(np.abs(flux - dim * cellvol).argmax())
         bad('divergence-theorem-cell', f"boundary integral of x.n over cell {c} is {flux[c]:.12g}, d*|K| = {dim * cellvol[c]:.12g}")
